@@ -134,3 +134,11 @@ claim('C14', 'other',
       'rule, idempotence and numbering independence are NOT decided.',
       'trusts: SMARTS atom scanner for the documented subset; exemption table',
       'DESIGN.md 4/C14')
+claim('C07', 'other',
+      'control-dependence check of every admission site of the reference matcher (guard kinds classified from the ast) and of '
+      'the .pyx matcher (text), wiring check of the automorphism filter and comparison operators',
+      'decides soundness guards only: no target atom is admitted without scope, atom, injectivity, bond, closure-set-equality '
+      'and closure-bond tests; the filter keys on the unordered image set; operators are wired to is_substructure with the '
+      'right length tests. Completeness of the search (no mapping lost) is NOT decided.',
+      'trusts: variable naming of the matcher (guard classification is by operand names); the .pyx analysed as text',
+      'DESIGN.md 4/C07')
